@@ -13,7 +13,7 @@ AXIOMS = [
 ]
 C = {}
 C[PA + 'serialize'] = dict(params=dict(self='Annotation', include_plus='bool'), returns='str', pure=True, trusted=True,
-                           bounded_by='single-chain serializer: round trip checked by bounded/C01.py', ensures=[])
+                           bounded_by='single-chain serializer: layout proved in contracts/serial.py (C01); parser-inverts-writer round trip bounded/C01.py', ensures=[])
 _BASE = dict(
     params=dict(self='Multi', include_plus='bool'), returns='str',
     ensures=[('chains-joined-by-their-link-tokens', 'result == SER(self, include_plus, len(self.annotations))')],
